@@ -12,7 +12,6 @@ import (
 	"encoding/json"
 	"fmt"
 	"os"
-	"path/filepath"
 	"runtime/debug"
 	"strings"
 	"testing"
@@ -158,6 +157,11 @@ func (w *c19World) judge(j *c19Judged) {
 	rec.Count("clause.layout.files_compared_dry", int64(len(j.Dry.Final)))
 	if dryMutated {
 		rec.Count("dry.cases_with_state_change", 1)
+	}
+
+	// the reference run holds no mutating call; if it changes state, a form is misclassified
+	if j.Ref != j.Norm && (len(j.Ref.mutReqs()) > 0 || len(j.Ref.Content) > 0) {
+		rec.HarnessError("case %s: the reference run without mutating calls changed state: %v %v", c, c19Trunc(j.Ref.mutReqs(), 4), c19Trunc(j.Ref.Content, 4))
 	}
 
 	// ---- non-vacuity: what the same scripts do without the switch
@@ -436,14 +440,14 @@ func c19Enumerate(thorough bool) ([]c19Case, map[string]any) {
 		}
 	}
 	info := map[string]any{
-		"forms":                   forms,
-		"mutating_forms":          muts,
-		"triple_forms":            tri,
-		"wrappers":                c19Wrappers,
-		"pair_location_patterns":  pairLocs,
-		"cases_total":             len(cases),
-		"forms_total":             len(forms),
-		"forms_mutating_total":    len(muts),
+		"forms":                  forms,
+		"mutating_forms":         muts,
+		"triple_forms":           tri,
+		"wrappers":               c19Wrappers,
+		"pair_location_patterns": pairLocs,
+		"cases_total":            len(cases),
+		"forms_total":            len(forms),
+		"forms_mutating_total":   len(muts),
 	}
 	return cases, info
 }
@@ -519,6 +523,14 @@ func TestVerifC19(t *testing.T) {
 				return
 			}
 		}
+		okW := false
+		for _, wn := range c19Wrappers {
+			okW = okW || wn == c.Wrapper
+		}
+		if !okW || len(c.Forms) == 0 || len(c.Locs) != len(c.Forms) || strings.Trim(c.Locs, "RL") != "" || c.Raise < 0 || c.Raise >= len(c19RaiseKinds) {
+			rec.HarnessError("replay: malformed case %+v", c)
+			return
+		}
 		j, err := w.execCase(c)
 		if err != nil {
 			rec.HarnessError("replay: %v", err)
@@ -554,8 +566,8 @@ func TestVerifC19(t *testing.T) {
 			rec.HarnessError("case %s: %v", c, err)
 			break
 		}
-		if d := time.Since(t0); d > 2*time.Second {
-			rec.Count("cases.slower_than_2s", 1)
+		if d := time.Since(t0); d > 20*time.Second {
+			rec.Count("cases.slower_than_20s", 1)
 			rec.Note(fmt.Sprintf("slow case (%.1fs): %s", d.Seconds(), c))
 		}
 		rec.Eval(1)
@@ -653,5 +665,3 @@ func c19Print(w *c19World, j *c19Judged) {
 	}
 	fmt.Print(w.scrub(sb.String()))
 }
-
-var _ = filepath.Join
